@@ -95,8 +95,10 @@ def check_cat(res, out, s, v, drive, cur_dir, ui, files, argv):
     if not m or int(m.group(1)) != v.cat.boot or m.group(2) != rm.BOOT_WORDS[v.cat.boot]:
         bad.append('boot option %d not shown (%r)' % (v.cat.boot, m.group(0) if m else None))
     double = s.density == 'MFM'
-    has_double = ('MFM' in hdr) or ('Double density' in hdr)
-    has_single = bool(re.search(r'(^|[^M])FM', hdr)) or ('Single density' in hdr)
+    # look for the density word outside the title (a title may itself contain "FM")
+    hdr_nt = hdr.replace(title, ' ', 1) if title else hdr
+    has_double = ('MFM' in hdr_nt) or ('Double density' in hdr_nt)
+    has_single = bool(re.search(r'(^|[^M])FM', hdr_nt)) or ('Single density' in hdr_nt)
     if double != has_double or (not double) != has_single:
         bad.append('density shown wrongly for %s' % s.density)
     m = re.search(r'Drive (\S+)', hdr)
